@@ -35,17 +35,22 @@ def model_line(driver, doc):
 
 
 def add_cases(run, sec, count, gen=None, skip_errors=True, mode=None):
-    """Queue `count` generated multi-column documents: protocol line for `driver_s2col` + the real layout,
-    canonicalised. `skip_errors`: an exception of the implementation is C02's business; C01/C03 only count it."""
+    """Queue the corpus documents of the repaired defects (regression cases, first), then `count` generated
+    multi-column documents: protocol line for `driver_s2col` + the real layout, canonicalised.
+    `skip_errors`: an exception of the implementation is C02's business; C01/C03 only count it."""
     docs.quiet()
-    for _ in range(count):
-        doc = gen(run.rng) if gen else pm_col.gen_doc(run.rng, mode=mode)
+    corpus = [] if gen else [witness_doc(name)[0] for name in REGRESSIONS]
+    for k in range(len(corpus) + count):
+        if k < len(corpus):
+            doc = corpus[k]
+        else:
+            doc = gen(run.rng) if gen else pm_col.gen_doc(run.rng, mode=mode)
         out = real_line(doc)
         if skip_errors and out.startswith('err:') and out != 'err:pagination':
             sec.tags['implementation raised (left to C02)'] += 1
             continue
         pages = out.count('(page ')
-        tags = pm_col.features(doc) + [f'pages{min(pages, 10)}']
+        tags = pm_col.features(doc) + [f'pages{min(pages, 10)}'] + (['corpus-regression'] if k < len(corpus) else [])
         sec.add(pm_col.doc_line(doc), out, meta={'doc': pm_corr.doc_json(doc)},
                 nontrivial=pages >= 2 and pm_col.has_columns(doc), tags=tags)
 
@@ -77,14 +82,12 @@ def expected_lines(box, out):
 
 
 def lossy_reason(doc):
-    """Known reasons for which the unchanged code loses / repeats content in this grammar (see
-    known_findings.txt): fixed heights (`fixed-height-forgets-overflow`), `column-span: all` children
-    (`column-span-loses-following-content`)."""
+    """Known reason for which the unchanged code loses content in this grammar (see known_findings.txt): fixed
+    heights on blocks and paragraphs (`fixed-height-forgets-overflow`). (`column-span: all` children were one
+    until b24b457.)"""
     for box in pm_col.walk(doc['root']):
         if box['st']['height'] != 'auto' and box['kind'] != 'columns':
             return 'fixed-height'
-        if box['kind'] == 'columns' and any(k.get('span') for k in box['kids']):
-            return 'column-span'
     return None
 
 
@@ -144,10 +147,25 @@ def progress_violation(doc, impl_out):
     return None
 
 
+def deco_ok(doc):
+    """Hypothesis `DecoOk` of `C03GeoCol.paginate_line_fits` (stage 1: `PStyle.DecoOk`): no paragraph or block has
+    `box-decoration-break: clone` with `padding-bottom + border-bottom + margin-bottom < 0` (the cloned bottom
+    decoration is reserved by *adding* that sum to the bottom space: a negative sum lets lines pass the bottom)."""
+    from fractions import Fraction
+    for box in pm_col.walk(doc['root']):
+        st = box['st']
+        if box['kind'] != 'columns' and st['clone'] and (
+                Fraction(st['pb']) + Fraction(st['bb']) + Fraction(st['mb']) < 0):
+            return False
+    return True
+
+
 def geometry_violation(doc, impl_out):
-    """C03 geometry clause: a line whose bottom is below the page bottom is the first line of its page or of
-    its column; columns of a container sit side by side (x = k · width / count), at the same y."""
-    if impl_out.startswith('err:'):
+    """C03 geometry clause: a line whose bottom is below the page bottom is the first line placed on its page, or
+    the first line of a column box of a group of columns before which no line was placed on the page (the columns
+    of one group are laid out with the `page_is_empty` the group started with; after a spanning block or any other
+    content the first line of a column has to fit like every other line)."""
+    if impl_out.startswith('err:') or not deco_ok(doc):
         return None
     pages = sx.loads_line(impl_out)
     from fractions import Fraction
@@ -165,12 +183,19 @@ def geometry_violation(doc, impl_out):
                         return f'page {page[1]}: line {frag[1]}.{i} bottom {bottom} > {page_h} and not first'
                     state['first'] = False
                 return None
+            group_first = None          # `first` at the start of the current run of column boxes
             for kid in kids_of(frag):
                 if kid[0] == 'c':
-                    state['first'] = True
+                    if group_first is None:
+                        group_first = state['first']
+                    state['first'] = group_first
+                else:
+                    group_first = None
                 bad = visit(kid)
                 if bad:
                     return bad
+                if kid[0] == 'c' and not group_first:
+                    state['first'] = False
             return None
         bad = visit(page[-1])
         if bad:
@@ -179,16 +204,30 @@ def geometry_violation(doc, impl_out):
 
 
 # ---------------------------------------------------------------------------------------------
-# witnesses (lean/WpModel/Witness/C01Col.lean) replayed on the implementation
+# the repaired defects (regression theorems of lean/WpModel/Witness/C01Col.lean) replayed on the implementation
 
-WITNESSES = {
-    # name -> (corpus file, judge of the implementation's output: text while the defect is there)
+REGRESSIONS = {
+    # corpus file -> judge of the implementation's output: text if the defect is (back) there
     'colspan_lost': lambda doc, out: conservation_violation(doc, out, strict=True),
     'colspan_group_dropped': lambda doc, out: (
-        conservation_violation(doc, out, strict=True) and progress_violation(doc, out)),
-    'colspan_find_earlier_attribute_error': lambda doc, out: out if out == 'err:AttributeError' else None,
+        conservation_violation(doc, out, strict=True) or progress_violation(doc, out)),
+    'colspan_find_earlier_attribute_error': lambda doc, out: out if out.startswith('err:') else None,
     'columns_negative_margin_bottom': lambda doc, out: geometry_violation(doc, out),     # corpus/C03
     'columns_margin_top_ignored': lambda doc, out: margin_top_ignored(out),              # corpus/C05
+}
+
+# findings that are still open: corpus file -> judge (text while the real code shows the defect). These documents
+# are outside the generator grammar (a spanning block with block children): the model does not follow the code there.
+OPEN = {
+    'colspan_block_resume_lost': lambda doc, out: (
+        None if out.startswith('err:') else conservation_violation(doc, out, strict=True)),
+    'colspan_block_resume_crash': lambda doc, out: out if out.startswith('err:') else None,
+}
+WITNESSES = {**REGRESSIONS, **OPEN}          # every corpus document that `replay_witness` knows
+# finding id (known_findings.txt) -> corpus document, read by harness/pm_stage2.finding_replays()
+FINDING_WITNESS = {
+    'column-span-block-resume-mislevelled': 'colspan_block_resume_lost',
+    'column-span-block-resume-crash': 'colspan_block_resume_crash',
 }
 
 
@@ -213,8 +252,12 @@ def witness_doc(name):
 
 
 def replay_witness(name):
-    """True while the real code still shows the defect recorded in corpus/C01|C03|C05/<name>.json."""
+    """True if the real code shows the defect recorded in corpus/C01|C03|C05/<name>.json (REGRESSIONS: repaired,
+    see the `fixed:` lines of known_findings.txt - these documents are also the first cases of every pm-col section;
+    OPEN: the `finding:` lines)."""
     docs.quiet()
     doc, _ = witness_doc(name)
     return bool(WITNESSES[name](doc, real_line(doc)))
+
+
 doc_json = pm_corr.doc_json
